@@ -1,5 +1,6 @@
 import TakVerif.Proofs.EvalTerminal
 import TakVerif.Proofs.Road
+import TakVerif.Proofs.EvalTotal
 
 /-! # C18 — heuristic scores never enter the range reserved for decided games
 
@@ -104,21 +105,21 @@ end C18
 namespace C18
 open Tak Roads
 
-/-- **C18, first half, rule-book form.**  On a well-formed board (C02's invariant; reserve sums fit a byte)
-of at most 64 squares whose game is *not over by the rules of Tak*, every built-in weight set gives a value
+/-- **C18, first half, rule-book form.**  On a well-formed board (C02's `RoadWF`: sizes 3..8, bitboards on
+the board and disjoint, groups = `analyze`) of at most 64 squares whose game is *not over by the rules of Tak*, every built-in weight set gives a value
 strictly inside the undecided range. -/
-theorem undecided_inside_rules (c : Consts) (w : Weights) (hw : w ∈ builtinWeights) (p : Pos) (wf : WFBoard p)
-    (hr : ReservesOK p) (hn : p.height.size ≤ 64) (hno : (Spec.outcome (Spec.abs p)).over = false)
+theorem undecided_inside_rules (c : Consts) (w : Weights) (hw : w ∈ builtinWeights) (p : Pos) (wf : RoadWF p)
+    (hn : p.height.size ≤ 64) (hno : (Spec.outcome (Spec.abs p)).over = false)
     (v : Int) (h : evaluate c w p = .ok v) : -Facts.winThreshold < v ∧ v < Facts.winThreshold := by
-  have hg := gameOver_refines p wf hr
+  have hg := gameOver_refines p wf
   have h1 : p.gameOver.1 = false := by rw [hg]; exact hno
   exact heuristic_inside c w hw p (analyze_analyzed p p wf.analyzed) hn h1 v h
 
 /-- **C18, second half, rule-book form.**  Game over by the rules, ply in `0 … 2·10^6`: the value is 0 for a
 draw, above the threshold (and ≤ MaxEval) when the winner is the side to move, below minus the threshold (and
 ≥ MinEval) when it is the other side. -/
-theorem finished_outside_rules (c : Consts) (w : Weights) (hw : w ∈ builtinWeights) (p : Pos) (wf : WFBoard p)
-    (hr : ReservesOK p) (hover : (Spec.outcome (Spec.abs p)).over = true) (h0 : 0 ≤ p.move)
+theorem finished_outside_rules (c : Consts) (w : Weights) (hw : w ∈ builtinWeights) (p : Pos) (wf : RoadWF p)
+    (hover : (Spec.outcome (Spec.abs p)).over = true) (h0 : 0 ≤ p.move)
     (hN : p.move ≤ 2000000) :
     ∃ v, evaluate c w p = .ok v ∧
       ((Spec.outcome (Spec.abs p)).winner = .none → v = 0) ∧
@@ -126,12 +127,65 @@ theorem finished_outside_rules (c : Consts) (w : Weights) (hw : w ∈ builtinWei
         Facts.winThreshold < v ∧ v ≤ Facts.maxEval) ∧
       ((Spec.outcome (Spec.abs p)).winner ≠ .none → (Spec.outcome (Spec.abs p)).winner ≠ p.toMove →
         Facts.minEval ≤ v ∧ v < -Facts.winThreshold) := by
-  have hg := gameOver_refines p wf hr
+  have hg := gameOver_refines p wf
   have h1 : p.gameOver.1 = true := by rw [hg]; exact hover
   have h2 : p.gameOver.2 = (Spec.outcome (Spec.abs p)).winner := by rw [hg]
   have := terminal_outside c w hw p h1 wf.size_ok.2 h0 hN
   rw [h2] at this
   exact this
+
+end C18
+
+/-! ### `evaluate` always returns on well-formed positions -/
+namespace C18
+open Tak Roads
+
+/-- **No panic, no hang.**  On every well-formed position (C02's board invariant; `Stacks` at least as long as
+`Height`) `evaluate` returns a value, for any weight vector: the computed index `ws[Groups+w]` of
+`scoreGroups` stays inside `Weights` (a group that is no road is at most `size` wide and high) and the loops
+of `Dimensions` terminate. -/
+theorem eval_total (w : Weights) (p : Pos) (wf : RoadWF p) (hst : p.height.size ≤ p.stacks.size) :
+    ∃ v, evaluate p.c w p = .ok v :=
+  evaluate_total w p wf hst
+
+/-- **C18 in one statement** for the constants the engine uses (`c = Precompute(size)`), in the rule book's
+terms: a value is always returned, within `[MinEval, MaxEval]`; it is strictly inside
+`(-WinThreshold, WinThreshold)` when the game is not over; for a finished game (ply ≤ 2·10^6) it is 0 for a draw and beyond the threshold with the sign of
+winner-vs-mover otherwise. -/
+theorem c18 (w : Weights) (hw : w ∈ builtinWeights) (p : Pos) (wf : RoadWF p)
+    (hh : p.height.size ≤ 64) (hst : p.height.size ≤ p.stacks.size) (h0 : 0 ≤ p.move) (hN : p.move ≤ 2000000) :
+    ∃ v, evaluate p.c w p = .ok v ∧ Facts.minEval ≤ v ∧ v ≤ Facts.maxEval ∧
+      ((Spec.outcome (Spec.abs p)).over = false → -Facts.winThreshold < v ∧ v < Facts.winThreshold) ∧
+      ((Spec.outcome (Spec.abs p)).over = true → (Spec.outcome (Spec.abs p)).winner = .none → v = 0) ∧
+      ((Spec.outcome (Spec.abs p)).over = true → (Spec.outcome (Spec.abs p)).winner ≠ .none →
+        (Spec.outcome (Spec.abs p)).winner = p.toMove → Facts.winThreshold < v) ∧
+      ((Spec.outcome (Spec.abs p)).over = true → (Spec.outcome (Spec.abs p)).winner ≠ .none →
+        (Spec.outcome (Spec.abs p)).winner ≠ p.toMove → v < -Facts.winThreshold) := by
+  obtain ⟨v, hv⟩ := eval_total w p wf hst
+  have e1 : Facts.minEval = -Facts.maxEval := by decide
+  have e2 : Facts.winThreshold ≤ Facts.maxEval := by decide
+  have e3 : (0 : Int) ≤ Facts.winThreshold := by decide
+  cases hov : (Spec.outcome (Spec.abs p)).over with
+  | false =>
+    have hin := undecided_inside_rules p.c w hw p wf hh hov v hv
+    refine ⟨v, hv, by omega, by omega, fun _ => hin, ?_, ?_, ?_⟩ <;> intro h <;> cases h
+  | true =>
+    obtain ⟨v', hv', c0, c1, c2⟩ := finished_outside_rules p.c w hw p wf hov h0 hN
+    rw [hv] at hv'
+    have : v = v' := Except.ok.inj hv'
+    subst this
+    by_cases hwn : (Spec.outcome (Spec.abs p)).winner = .none
+    · have := c0 hwn
+      refine ⟨v, hv, by omega, by omega, (fun h => by cases h), fun _ _ => this, ?_, ?_⟩
+      · intro _ h; exact absurd hwn h
+      · intro _ h; exact absurd hwn h
+    · by_cases hm : (Spec.outcome (Spec.abs p)).winner = p.toMove
+      · have := c1 hwn hm
+        refine ⟨v, hv, by omega, by omega, (fun h => by cases h), fun _ h => absurd h hwn, fun _ _ _ => this.1, ?_⟩
+        intro _ _ h; exact absurd hm h
+      · have := c2 hwn hm
+        refine ⟨v, hv, by omega, by omega, (fun h => by cases h), fun _ h => absurd h hwn, ?_, fun _ _ _ => this.2⟩
+        intro _ _ h; exact absurd h hm
 
 end C18
 
@@ -173,7 +227,8 @@ def whiteRoad : Pos := mk 3 [[wF], [wF], [wF], [bF], [bF], [], [], [], []] 5
 example : Analyzed midgame ∧ midgame.gameOver.1 = false ∧ midgame.height.size ≤ 64 ∧
     evaluate midgame.c Facts.evalDefaultWeights midgame = .ok 760 := by decide +kernel
 
-example : WFBoard midgame ∧ ReservesOK midgame := (wfBoardB_iff _).mp (by decide +kernel)
+example : RoadWF midgame := ((wfBoardB_iff _).mp (by decide +kernel)).toRoadWF
+example : midgame.height.size ≤ midgame.stacks.size ∧ 0 ≤ midgame.move := by decide +kernel
 
 example : Facts.evalDefaultWeights ∈ builtinWeights ∧ Facts.medWeights ∈ builtinWeights := by decide
 
